@@ -23,7 +23,8 @@ STATE_MEASURE = "distinct (family, grouped?, #selected features, checkpoint kind
 COMPONENTS_REAL = ["gemclus sparse estimators: _update_weights, proximal operators, get_selection, check_groups, fit, _path, restoration",
                    "scikit-learn SGD/Adam moment and learning-rate updates"]
 COMPONENTS_STUB = ["BaseOptimizer.update_params (real / identity / teleport) + a hook planting rows at the threshold, exact zero rows, ties",
-                   "independent proximal references (closed-form group soft-threshold; HIER-PROX by exact piecewise minimisation)"]
+                   "independent proximal references (closed-form group soft-threshold; HIER-PROX by exact piecewise minimisation)",
+                   "crash at an arbitrary point: seams.LineCrash (sys.settrace) raises when the k-th source line of the library is about to run, in interrupted calls of the history"]
 ASSUMPTIONS = ["prox comparison tolerance 1e-9*max(1,|W|); rows outside the property's scope (zero skip row with non-zero hidden row, or "
                "alpha=0 with zero skip row: the minimiser is not unique) are skipped and counted",
                "inertness is compared exactly (multiplying finite values by exact zeros is exact)"]
